@@ -858,7 +858,8 @@ void harness(void)
 			}
 			if (hq0.name[0] == 'P' || hq0.name[0] == 'p') {
 				static char cp[NL + 1], ref[8]; size_t rl = 7; int k, dot = -1, got = 0;
-				for (k = 0; k <= NL; k++) { cp[k] = hq0.name[k]; if (dot < 0 && cp[k] == '.') dot = k; }
+				for (k = 0; k <= NL; k++) cp[k] = hq0.name[k];
+				for (k = 0; k <= NL && cp[k]; k++) if (cp[k] == '.') { dot = k; break; }	/* strchr: up to the terminator */
 				if (dot >= 1) got = base32_ops.decode(ref, &rl, cp + 1, (size_t) (dot - 1));
 				if (dot >= 1 && got >= 4) {
 					VASSERT(u->qmemping_lastfilled == mfill_p && u->qmemping_type[mfill_p] == hq0.type &&
